@@ -66,3 +66,57 @@ func zzALPNPick() {
 	zzsymAssert(zzProtoIn(client, sel), "protocol_from_client_list")
 	zzsymCover("selected")
 }
+
+// The same with a LONG offer: the client offers 20 fixed names "p00".."p19" plus one arbitrary 3-byte name (21
+// names: beyond any small-list fast path), the server is configured with two arbitrary 3-byte names. The selected
+// protocol is in both lists; failure only without a common protocol.
+//
+//symgo:entry covers=long_selected,long_no_common_protocol
+func zzALPNPickLongOffer() {
+	var client []string
+	for i := 0; i < 20; i++ {
+		client = append(client, string([]byte{'p', byte('0' + i/10), byte('0' + i%10)}))
+	}
+	extra := zzsymString("client_proto", 3)
+	client = append(client[:7], append([]string{extra}, client[7:]...)...)
+	server := []string{zzsymString("server_proto", 3), zzsymString("server_proto", 3)}
+	common := false
+	for _, p := range client {
+		common = zzsymOr(common, zzProtoIn(server, p))
+	}
+	sel, err := ALPNProtocolSelection(server, client)
+	if err != nil {
+		zzsymAssert(errors.Is(err, dtlserrors.ErrALPNNoAppProto), "failure_is_no_application_protocol")
+		zzsymAssert(zzsymNot(common), "long_offer_fails_only_without_common_protocol")
+		zzsymCover("long_no_common_protocol")
+
+		return
+	}
+	zzsymAssert(zzProtoIn(server, sel), "long_offer_protocol_from_server_list")
+	zzsymAssert(zzProtoIn(client, sel), "long_offer_protocol_from_client_list")
+	zzsymCover("long_selected")
+}
+
+// A configured protocol name that does not fit RFC 7301's one-byte length (256 bytes and more; also 255 as the last
+// that fits) is refused by the encoder or encoded as exactly that one name - never re-framed as other names the
+// peer could select (the DTLS 1.2 client does not re-check the selection against its own list).
+//
+//symgo:entry covers=long_name_refused,long_name_encoded
+func zzALPNLongNameNotReframed() {
+	n := []int{255, 256, 258, 300}[zzsymChoice("name_len", 4)]
+	b := make([]byte, n)
+	for i := range b {
+		b[i] = 'x'
+	}
+	b[0], b[1], b[2] = zzsymU8("name_byte"), zzsymU8("name_byte"), zzsymU8("name_byte")
+	out, err := ALPNOffer{Protocols: []string{string(b)}}.MarshalData()
+	if err != nil {
+		zzsymCover("long_name_refused")
+
+		return
+	}
+	back := &ALPNOffer{}
+	zzsymAssert(back.UnmarshalData(out) == nil, "long_name_encoding_decodes")
+	zzsymAssert(len(back.Protocols) == 1 && len(back.Protocols[0]) == n, "long_name_is_still_one_name")
+	zzsymCover("long_name_encoded")
+}
